@@ -3,13 +3,22 @@ pub mod tcbspec {
     use vstd::prelude::*;
     use crate::proto::tcb::{TCPControlBlock, ProtocolState};
     use crate::World;
-    /// `smack_state` is a (row, pending) pair of the compiled PROTO_SMACK automaton (defined with the matcher)
-    pub uninterp spec fn smack_state_ok(s: usize) -> bool;
+    /// the value of the lazily initialised constant PROTO_SMACK (rule R3): one fixed automaton; its
+    /// well-formedness and id range are ground facts checked on the real table on every run
+    pub uninterp spec fn PROTO_TABLE() -> crate::smack::Smack;
+    #[verifier::external_body]
+    pub broadcast proof fn axiom_proto_table()
+        ensures #[trigger] PROTO_TABLE().wf(), PROTO_TABLE().resting(0),
+            PROTO_TABLE().all_ids_between(1, 8) {}
+    /// `smack_state` is a (row, pending) pair of the compiled PROTO_SMACK automaton
+    pub open spec fn smack_state_ok(s: usize) -> bool { PROTO_TABLE().state_ok(s) }
     /// inner parser states are within their state sets (defined with each parser)
     pub uninterp spec fn http_state_wf(h: crate::proto::http::ProtocolState) -> bool;
     pub uninterp spec fn rpc_state_wf(r: crate::proto::rpc::ProtocolState) -> bool;
     pub open spec fn tcb_wf(t: TCPControlBlock) -> bool {
         smack_state_ok(t.smack_state)
+        && t.proto_id <= 8
+        && (t.proto_id == 0 ==> PROTO_TABLE().resting(t.smack_state))
         && (t.proto_state matches Some(ProtocolState::HTTP(h)) ==> t.proto_id == 1 && http_state_wf(h))
         && (t.proto_state matches Some(ProtocolState::RPC(r)) ==> t.proto_id == 5 && rpc_state_wf(r))
     }
@@ -17,8 +26,12 @@ pub mod tcbspec {
         forall|k: u32| #[trigger] m.dom().contains(k) ==> tcb_wf(m[k])
     }
     pub open spec fn world_wf(w: &World) -> bool { table_wf(w.table()) }
-    /// BASE_STATE (0: row 0, nothing pending) is a state of every compiled automaton
-    #[verifier::external_body]
+    /// BASE_STATE (0: row 0, nothing pending) is a resting state of the compiled automaton
     pub broadcast proof fn axiom_base_state_ok()
-        ensures #[trigger] smack_state_ok(0) {}
+        ensures #[trigger] smack_state_ok(0), PROTO_TABLE().resting(0)
+    {
+        broadcast use axiom_proto_table;
+        assert(PROTO_TABLE().wf());
+        assert(0usize & 0xFFFFFF == 0 && 0usize >> 24 == 0) by(bit_vector);
+    }
 }
